@@ -131,6 +131,9 @@ KINDS = ["str", "ident", "embedded", "comment", "raw", "national"]
 OPTS = {"default": {}, "pretty": {"pretty": True}, "identify": {"identify": True}}
 
 
+COMMENT_ATOMS = ["/", "*", "-", "#", "\n", " ", "a", "'"]
+
+
 def worker(shard, nshards, dialects, atoms, L, Lfull):
     logging.disable(logging.CRITICAL)
     res = {"evaluations": 0, "nontrivial": 0, "viol": {}, "samples": []}
@@ -171,6 +174,24 @@ def worker(shard, nshards, dialects, atoms, L, Lfull):
                                 res["viol"][key]["count"] += 1
             if len(res["samples"]) < 3 and idx % 3001 == shard:
                 res["samples"].append({"value": v})
+    # comment texts built from the comment markers themselves, one level deeper (overlapping / nested markers)
+    for ln in range(1, L + 2):
+        for combo in itertools.product(COMMENT_ATOMS, repeat=ln):
+            idx += 1
+            if idx % nshards != shard:
+                continue
+            v = "".join(combo)
+            if not v.strip():
+                continue
+            for d in dialects:
+                res["evaluations"] += 1
+                r = check_value(v, d, "comment", {})
+                if r is not None:
+                    key = ("comment", d or "base", "default", tuple(sorted(set(combo))))
+                    if key not in res["viol"]:
+                        res["viol"][key] = {"v": v, "problem": r[0], "sql": r[1], "count": 1}
+                    else:
+                        res["viol"][key]["count"] += 1
     res["viol"] = list(res["viol"].items())
     return res
 
@@ -214,7 +235,7 @@ def run(ctx: Ctx) -> None:
             "distinct_nontrivial": res["nontrivial"],
             "rule": f"every string of length <= {L} (string literal, quoted identifier) / <= {Lfull} (all kinds) over the {len(atoms)}-atom adversarial alphabet (computed from all dialects' "
                     "tokenizers) x 34 dialects x kinds (string literal, quoted identifier, value embedded in SELECT..AS..FROM..WHERE, "
-                    "comment at 3 positions, raw string, national string) x option sets; non-trivial = (value, dialect) where the value "
+                    "comment at 3 positions, raw string, national string) x option sets; plus every comment text of length <= L+1 over the 8 comment-marker atoms; non-trivial = (value, dialect) where the value "
                     "contains a character that is a delimiter / escape / control character in that dialect.",
             "alphabet": atoms,
             "max_len": L,
